@@ -128,6 +128,8 @@ def child_compat(x, y):
 
 def map_child(kind, comp, fn):
     """Apply fn to every child of a child-holding component."""
+    if not _shape_ok(kind, comp):
+        return CNONE
     if kind == "one":
         return fn(comp)
     if kind == "list" or kind == "fixedmap" or kind == "sparsemap":
@@ -144,6 +146,8 @@ def map_child(kind, comp, fn):
 
 
 def zip_child(kind, a, b, fn):
+    if not (_shape_ok(kind, a) and _shape_ok(kind, b)):
+        return CNONE
     if kind == "one":
         return fn(a, b)
     if kind in ("list", "fixedmap"):
@@ -169,8 +173,18 @@ def zip_child(kind, a, b, fn):
     raise ValueError(kind)
 
 
+def _shape_ok(kind, a):
+    from hgv.sv import CIte
+
+    if kind == "one":
+        return isinstance(a, (CChild, CIte))
+    return isinstance(a, CFam)
+
+
 def all_children(st, kind, a, pred, name):
     """Bool: pred(child component) for every child."""
+    if not _shape_ok(kind, a):
+        return z3.BoolVal(False)  # the slot does not hold what the class invariant requires
     if kind == "one":
         return pred(a)
     k = z3.Const(f"sp!{core.uid()}", a.ksort)
@@ -182,6 +196,8 @@ def all_children(st, kind, a, pred, name):
 
 
 def all_children2(st, kind, a, b, pred, name):
+    if not (_shape_ok(kind, a) and _shape_ok(kind, b)):
+        return z3.BoolVal(False)
     if kind == "one":
         return pred(a, b)
     k = z3.Const(f"sp!{core.uid()}", a.ksort)
